@@ -1423,12 +1423,15 @@ def check_wire(run, model, payload, m, cls, kind):
     if not run.compare('C16.wire_verdict', case, impl_ok, model_ok):
         return
     if impl_ok and msg.SerializeToString() == payload:
-        run.count('wire:canonical')
+        run.count('wire:reserialises')
         run.compare('C16.wire_tree', case, msg_tree(msg), known_only(mod['ok'], m))
-        run.compare('C16.wire_ser', case, payload.hex(), model.call('ser_tree', tree=mod['ok']))
-        flat = model.call('wire_parse', d=payload.hex())
-        run.compare('C16.wire_flat_ser', case, payload.hex(),
-                    model.call('ser_fields', fields=flat['ok']) if isinstance(flat, dict) else flat)
+        if known_only(mod['ok'], m) == mod['ok']:
+            # no unknown fields (those are kept and re-emitted verbatim, overlong tags included): the bytes are canonical
+            run.count('wire:canonical')
+            run.compare('C16.wire_ser', case, payload.hex(), model.call('ser_tree', tree=mod['ok']))
+            flat = model.call('wire_parse', d=payload.hex())
+            run.compare('C16.wire_flat_ser', case, payload.hex(),
+                        model.call('ser_fields', fields=flat['ok']) if isinstance(flat, dict) else flat)
 
 
 def damage(rng, b):
@@ -1483,6 +1486,74 @@ def check_varint(run, model, n, kind):
     if z32:
         run.compare('C16.zigzag', case, msg_tree(loc)[0][2], model.call('zigzag_enc', z=z32))
         run.compare('C16.zigzag_dec', case, z32, model.call('zigzag_dec', n=model.call('zigzag_enc', z=z32)))
+
+
+# ------------------------------------------------------------------------------------------------
+# hex / byte-order views of the accessors (claim ids, channel ids, hashes)
+# ------------------------------------------------------------------------------------------------
+def check_hash_view(run, model, h, kind):
+    case = {'op': 'hash-view', 'h': h.hex(), 'kind': kind}
+    run.case(case, nontrivial=len(h) > 0)
+    run.count('hash-view:len=%d' % min(len(h), 49))
+    ref = Purchase()
+    ref.claim_hash = h
+    cid = ref.claim_id
+    src = claim_pb2.Source()
+    from lbry.schema.attrs import Source
+    acc = Source(src)
+    acc.sd_hash_bytes = h
+    sup = Support()
+    sup.signing_channel_hash = h
+    bad = []
+    if cid != h[::-1].hex():
+        bad.append(f'claim_id of hash is {cid}')
+    if acc.sd_hash != h.hex():
+        bad.append(f'sd_hash of bytes is {acc.sd_hash}')
+    if h and sup.signing_channel_id != h[::-1].hex():
+        bad.append(f'signing_channel_id is {sup.signing_channel_id}')
+    ref2 = Purchase(cid)
+    if ref2.claim_hash != h:
+        bad.append('hash -> id -> hash is not the identity')
+    if bad:
+        run.violation(case, '; '.join(bad), signature={'op': 'hash-view', 'h': h.hex()})
+        return
+    run.compare('C16.claim_id_of_hash', case, cid, bytes.fromhex(model.call('claim_id_of_hash', h=h.hex())).decode('ascii'))
+    run.compare('C16.hexlify', case, acc.sd_hash, bytes.fromhex(model.call('hexlify', b=h.hex())).decode('ascii'))
+
+
+def check_claim_id_text(run, model, s, kind):
+    """setting an id from arbitrary text: accepted exactly when it is an even number of hex digits"""
+    case = {'op': 'claim-id-text', 's': s, 'kind': kind}
+    run.case(case, nontrivial=len(s) > 0)
+    ref = Purchase()
+    try:
+        ref.claim_id = s
+        impl = ref.claim_hash.hex()
+    except ValueError:                      # binascii.Error is a ValueError
+        impl = None
+    run.count('claim-id-text:' + ('accept' if impl is not None else 'reject'))
+    want_ok = len(s) % 2 == 0 and all(c in '0123456789abcdefABCDEF' for c in s)
+    if want_ok != (impl is not None):
+        run.violation(case, f'claim id text {s!r}: accepted={impl is not None}', signature={'op': 'claim-id-text', 's': s})
+        return
+    if impl is not None and ref.claim_id != s.lower():
+        run.violation(case, f'claim id {s!r} reads back as {ref.claim_id!r}', signature={'op': 'claim-id-text', 's': s})
+        return
+    run.compare('C16.hash_of_claim_id', case, impl, model.call('hash_of_claim_id', s=s.encode('utf-8').hex()))
+
+
+def gen_id_text(rng):
+    n = rng.choice([0, 1, 2, 3, 39, 40, 40, 41, 42, rng.randrange(0, 100)])
+    s = ''.join(rng.choice('0123456789abcdef') for _ in range(n))
+    c = rng.random()
+    if c < 0.2:
+        s = s.upper()
+    elif c < 0.35:
+        s = ''.join(ch.upper() if rng.random() < 0.5 else ch for ch in s)
+    elif c < 0.55 and s:
+        i = rng.randrange(len(s))
+        s = s[:i] + rng.choice('gGxz /:@`\u00e9\uff11\u0661 \n') + s[i + 1:]
+    return s
 
 
 # ------------------------------------------------------------------------------------------------
@@ -1565,6 +1636,13 @@ def main(run):
         check_varint(run, model, n, 'boundary')
     for _ in range(q(500, 20000)):
         check_varint(run, model, rng.randrange(2 ** rng.randrange(1, 65)), 'generated')
+    # -- hex views -----------------------------------------------------------------------------------------
+    for n in (0, 1, 19, 20, 21, 32, 33, 48):
+        check_hash_view(run, model, bytes(range(n)), 'boundary')
+        check_hash_view(run, model, b'\xff' * n, 'boundary')
+    for _ in range(q(300, 6000)):
+        check_hash_view(run, model, bytes(rng.randrange(256) for _ in range(rng.choice([20, 20, 33, 48, rng.randrange(0, 50)]))), 'generated')
+        check_claim_id_text(run, model, gen_id_text(rng), 'generated')
     # -- damaged bytes -----------------------------------------------------------------------------------
     sup = Support()
     sup.comment = 'hi'
@@ -1629,6 +1707,10 @@ def replay(run, case):
         check_claim_dispatch(run, model, bytes.fromhex(case['data']), 'replay')
     elif op == 'wire':
         check_wire(run, model, bytes.fromhex(case['data']), case['m'], claim_pb2.Claim, 'replay')
+    elif op == 'hash-view':
+        check_hash_view(run, model, bytes.fromhex(case['h']), 'replay')
+    elif op == 'claim-id-text':
+        check_claim_id_text(run, model, case['s'], 'replay')
     elif op == 'varint':
         check_varint(run, model, int(case['n']), 'replay')
     model.close()
